@@ -427,6 +427,10 @@ class Evaluator:
             return v
         if isinstance(node.op, ast.Invert) and type(v).__name__ == 'VMatMask':
             return self.mat_invert(v)
+        if isinstance(node.op, ast.Invert) and isinstance(v, VList) and v.nd and st.heap.lists[v.ref].etype == 'bool':
+            c_ = st.heap.lists[v.ref]
+            self.used('~ on a boolean array (elementwise not)')
+            return self.pointwise(st, 'bool', c_.length, lambda k_: z3.Not(c_.leaves[0][k_]), 'inv')
         raise Unsupported('unary op')
 
     def ev_BoolOp(self, node, st):
@@ -792,6 +796,8 @@ class Evaluator:
             raise Unsupported('attribute %s of %r' % (attr, base))
         if isinstance(base, VModule):
             return VFunc('module', base.name + '.' + attr)
+        if isinstance(base, VFunc) and base.kind == 'module' and base.name in ('np.random', 'np.linalg', 'os.path'):
+            return VFunc('module', base.name + '.' + attr)
         if isinstance(base, VElem):
             m = self.resolve_elem_attr(base, attr, st)
             if m is not None:
@@ -811,6 +817,8 @@ class Evaluator:
             return VInt(1 if base.width is None else 2)
         if isinstance(base, VList) and base.nd and attr == 'dtype':
             return VElem(z3.Const('some_dtype', Elem))
+        if isinstance(base, VAssoc) and attr in ('values', 'keys'):
+            return VFunc('assocmethod', attr, self_val=base)
         if type(base).__name__ == 'VMat':
             return self.mat_getattr(base, attr, st, node)
         if isinstance(base, VRag) and attr in ('append', 'items'):
